@@ -54,6 +54,14 @@ def _args(api, line, tools, d):
         if tr:
             a.append("-t")
         return a
+    if api == "cligraphout":
+        signed, co, infmt = (int(x) for x in t[:3])
+        inb, p = _take_list(t, 3)
+        open(os.path.join(d, "in"), "wb").write(bytes(inb))
+        a = [tools["cmr-network" if signed else "cmr-graphic"], os.path.join(d, "in"), "-i", FMT[infmt], "-G", os.path.join(d, "out")]
+        if co:
+            a.append("-t")
+        return a
     if api == "cliverdict":
         tool, variant, infmt = (int(x) for x in t[:3])
         inb, p = _take_list(t, 3)
